@@ -55,15 +55,14 @@ AnalysisFaithful(g, a) ==
 (* A rendering r == [nodes : Seq(name), edges : Seq(<<from, to>>)] is      *)
 (* faithful when it has exactly one node statement per spec node, one edge *)
 (* per branch (as a bag), and nothing else except that an edge to a        *)
-(* missing or variable target needs an endpoint, so one extra node         *)
-(* statement per such target is allowed.  Branches with an empty target    *)
-(* are outside the judged class (HasEmpty).                                *)
+(* missing, variable or empty target needs an endpoint, so one extra node  *)
+(* statement per such target is allowed.                                   *)
 (***************************************************************************)
 HasEmpty(g) == EmptyTargetNodes(g) # {}
 EdgeBag(g) == [b \in Branches(g) |-> <<b[1], TargetText(Br(g, b).target)>>]
 CountEdges(e, g) == Cardinality({b \in Branches(g) : EdgeBag(g)[b] = e})
 RenderFaithful(g, r) ==
-  LET extra == (MissingTargets(g) \cup VariableTargets(g)) IN
+  LET extra == MissingTargets(g) \cup VariableTargets(g) \cup (IF HasEmpty(g) THEN {""} ELSE {}) IN
   /\ \A n \in Nodes(g) : Count(n, r.nodes) = 1
   /\ \A i \in DOMAIN r.nodes : r.nodes[i] \in Nodes(g) \cup extra
   /\ \A x \in extra : Count(x, r.nodes) <= 1
